@@ -516,7 +516,7 @@ static std::string run_case(const Args& a, long i, const std::string& outdir) {
     bool threw = false; std::string what; std::string stats_text; bool stats_present = false; double t_end = 0; size_t cells_end = 0;
     {
         std::unique_ptr<mon_solver> S;
-        try { S = std::make_unique<mon_solver>(sp, pop.cells, 1, in_memory, false); }
+        try { S = std::make_unique<mon_solver>(sp, pop.cells, a.threads, in_memory, false); }
         catch (const std::exception& e) { c.v = "skip"; c.msg = std::string("constructor threw: ") + e.what(); o.bin("skip:constructor_exception"); goto done; }
         M.S = S.get();
         try { S->run(); } catch (const std::exception& e) { threw = true; what = e.what(); } catch (...) { threw = true; what = "unknown exception"; }
